@@ -787,6 +787,11 @@ class Gen:
                 msh = self.sub_broadcast_shape(sh)
                 n = int(np.prod(msh)) if msh else 1
                 s["where"] = {"sh": list(msh), "v": [r.random() < 0.6 for _ in range(n)]}
+                if not msh and r.random() < 0.6:
+                    s["wsp"] = "py"       # the mask is spelled as a Python bool (the specification does not see it)
+            elif r.random() < 0.15:
+                s["where"] = {"sh": [], "v": [r.random() < 0.5]}
+                s["wsp"] = "py"
         return self.emit(s)
 
     def terminal(self, scalar=True):
